@@ -104,7 +104,7 @@ let parse_op (s : string) : op =
    print as ? and are not comparable (the properties' projections leave them out). *)
 let external_op (s : string) : bool option =
   match List.hd (split_on ':' s) with
-  | "print" | "printbuf" | "printpre" | "minify" | "sortobj" | "sortobjcs" | "findptr" | "applypatch" | "applypatchcs" -> Some false
+  | "print" | "printbuf" | "printpre" | "minify" | "sortobj" | "sortobjcs" | "findptr" | "applypatch" | "applypatchcs" | "seal" | "unseal" -> Some false
   | "parse" | "parseo" | "parsel" | "genpatch" | "genpatchcs" | "genmerge" | "genmergecs" | "mergepatch" | "mergepatchcs" | "getptr" | "getptrcs" -> Some true
   | _ -> None
 
